@@ -393,3 +393,27 @@ theorem foldl_dropMsg_log (inbox : List FMsg) (e : Env) : ∃ rest, (inbox.foldl
     exact ⟨r1 ++ r2, by rw [List.foldl_cons, h2, h1, List.append_assoc]⟩
 
 end Factory
+
+namespace Factory
+
+theorem die_log (e : Env) (aid : Nat) : ∃ rest, (e.die aid).log = e.log ++ rest := by
+  unfold Env.die
+  cases ha : e.getActor aid with
+  | none => exact ⟨[], by simp⟩
+  | some a =>
+    simp only
+    split
+    · exact ⟨[], by simp⟩
+    · exact ⟨_, rfl⟩
+
+theorem killAll_log (e : Env) : ∃ rest, e.killAll.log = e.log ++ rest := by
+  unfold Env.killAll
+  generalize e.actors.map (·.aid) = ids
+  induction ids generalizing e with
+  | nil => exact ⟨[], by simp⟩
+  | cons a as ih =>
+    obtain ⟨r1, h1⟩ := die_log e a
+    obtain ⟨r2, h2⟩ := ih (e.die a)
+    exact ⟨r1 ++ r2, by rw [List.foldl_cons, h2, h1, List.append_assoc]⟩
+
+end Factory
